@@ -142,10 +142,10 @@ func enterSeq(r *ReqRec) string {
 
 func init() {
 	rule := "a run is non-trivial when the cache served at least one hit or stored at least two entries"
-	register(&Profile{Prop: "C07", Name: "sequential", Quick: 24000, Thorough: 500000, Gen: genC07(false, false), Check: checkC07, Rule: rule})
-	register(&Profile{Prop: "C07", Name: "concurrent", Quick: 15000, Thorough: 300000, Gen: genC07(true, false), Check: checkC07, Rule: rule})
+	register(&Profile{Prop: "C07", Name: "sequential", Quick: 16000, Thorough: 500000, Gen: genC07(false, false), Check: checkC07, Rule: rule})
+	register(&Profile{Prop: "C07", Name: "concurrent", Quick: 10000, Thorough: 300000, Gen: genC07(true, false), Check: checkC07, Rule: rule})
 	register(&Profile{Prop: "C07", Name: "concurrent-race", Race: true, Quick: 1500, Thorough: 40000, Gen: coarseRace(genC07(true, true)), Check: checkC07,
 		Rule: "as concurrent-cacheloss, executed under the race detector with coarse schedules", Faulty: true})
-	register(&Profile{Prop: "C07", Name: "sequential-cacheloss", Quick: 15000, Thorough: 300000, Gen: genC07(false, true), Check: checkC07, Rule: rule, Faulty: true})
-	register(&Profile{Prop: "C07", Name: "concurrent-cacheloss", Quick: 15000, Thorough: 300000, Gen: genC07(true, true), Check: checkC07, Rule: rule, Faulty: true})
+	register(&Profile{Prop: "C07", Name: "sequential-cacheloss", Quick: 10000, Thorough: 300000, Gen: genC07(false, true), Check: checkC07, Rule: rule, Faulty: true})
+	register(&Profile{Prop: "C07", Name: "concurrent-cacheloss", Quick: 10000, Thorough: 300000, Gen: genC07(true, true), Check: checkC07, Rule: rule, Faulty: true})
 }
